@@ -476,8 +476,11 @@ def run_check(pid, tier, replay=None):
     ev["violations"] = len(concrete) + len(other)
     ev["wall_s"] = round(time.time() - t0, 2)
     if not replay:
-        os.makedirs(os.path.join(VERIF, "evidence"), exist_ok=True)
-        with open(os.path.join(VERIF, "evidence", pid + ".json"), "w") as f:
+        # runs against a scratch tree (mutation testing) must not overwrite the evidence of /repo
+        evdir = os.path.join(VERIF, "evidence") if os.path.realpath(REPO) == "/repo" else \
+            os.path.join(VERIF, ".cache", "evidence_scratch")
+        os.makedirs(evdir, exist_ok=True)
+        with open(os.path.join(evdir, pid + ".json"), "w") as f:
             json.dump(ev, f, indent=1, default=str)
     else:
         for c, r in zip(cases, results):
